@@ -2,6 +2,7 @@ SPECIFICATION Spec
 CONSTANTS
   MaxPrior = 3
   MaxDoc = 3
+  MaxDocNoEstimate = 4
   Shard = 0
   Shards = 1
   CheckDevs = {}
